@@ -714,4 +714,156 @@ pub proof fn lemma_win_shift_down<Old: Index<usize> + ?Sized, New: Index<usize> 
     if removed { lemma_carried2(g, i2, 0, 0); } else { lemma_carried3(g, i2, f2, 0, 0); }
 }
 
+
+// ---------------------------------------------------------------------------------------------
+// arm lemmas: one rewrite of the compaction, on the whole list
+// ---------------------------------------------------------------------------------------------
+/// what every rewrite keeps (the lax part of `cleanup_post`, for one step)
+pub open spec fn lax_step<Old: Index<usize> + ?Sized, New: Index<usize> + ?Sized>(old: &Old, new: &New, s1: Seq<DiffOp>, s2: Seq<DiffOp>) -> bool
+  where New::Output: PartialEq<Old::Output>
+{
+    step_ok(old, new, s1, s2, false) && etot(s2) == etot(s1) && (carried_ok(s1) ==> carried_ok(s2))
+}
+
+pub proof fn lemma_arm_window<Old: Index<usize> + ?Sized, New: Index<usize> + ?Sized>(old: &Old, new: &New, s1: Seq<DiffOp>, s2: Seq<DiffOp>,
+    pre: Seq<DiffOp>, w1: Seq<DiffOp>, w2: Seq<DiffOp>, post: Seq<DiffOp>)
+  where New::Output: PartialEq<Old::Output>
+    requires s1 == cat3(pre, w1, post), s2 == cat3(pre, w2, post), win_ok(old, new, w1, w2, false), win_ok(old, new, w1, w2, true), win_carried(w1, w2),
+    ensures lax_step(old, new, s1, s2), step_ok(old, new, s1, s2, true),
+{
+    lemma_step_window(old, new, pre, w1, w2, post, false);
+    lemma_step_window(old, new, pre, w1, w2, post, true);
+    lemma_carried_window(pre, w1, w2, post);
+}
+
+pub proof fn lemma_arm_merge<Old: Index<usize> + ?Sized, New: Index<usize> + ?Sized>(old: &Old, new: &New, s1: Seq<DiffOp>, p: int)
+  where New::Output: PartialEq<Old::Output>
+    requires 1 <= p < s1.len(),
+        (s1[p - 1] is Insert && s1[p] is Insert && op_new_len(s1[p - 1]) + op_new_len(s1[p]) <= usize::MAX)
+        || (s1[p - 1] is Delete && s1[p] is Delete && op_old_len(s1[p - 1]) + op_old_len(s1[p]) <= usize::MAX),
+    ensures lax_step(old, new, s1, merge_result(s1, p)), step_ok(old, new, s1, merge_result(s1, p), true),
+{
+    let a = s1[p - 1]; let c = s1[p];
+    let pre = s1.subrange(0, p - 1); let post = s1.subrange(p + 1, s1.len() as int);
+    let w1 = seq![a, c]; let w2 = seq![merged(a, c)];
+    assert(s1 =~= cat3(pre, w1, post));
+    assert(merge_result(s1, p) =~= cat3(pre, w2, post));
+    lemma_win_merge(old, new, a, c, false);
+    lemma_win_merge(old, new, a, c, true);
+    lemma_arm_window(old, new, s1, merge_result(s1, p), pre, w1, w2, post);
+}
+
+pub open spec fn up_grew(s1: Seq<DiffOp>, p: int) -> bool { p + 1 < s1.len() && s1[p + 1] is Equal }
+pub open spec fn up_pre(s1: Seq<DiffOp>, p: int) -> Seq<DiffOp> { s1.subrange(0, p - 1) }
+pub open spec fn up_post(s1: Seq<DiffOp>, p: int) -> Seq<DiffOp> { if up_grew(s1, p) { s1.subrange(p + 2, s1.len() as int) } else { s1.subrange(p + 1, s1.len() as int) } }
+pub open spec fn up_w1(s1: Seq<DiffOp>, p: int) -> Seq<DiffOp> { if up_grew(s1, p) { seq![s1[p - 1], s1[p], s1[p + 1]] } else { seq![s1[p - 1], s1[p]] } }
+pub open spec fn up_w2(s1: Seq<DiffOp>, p: int, s: usize) -> Seq<DiffOp> { up_window(s1[p - 1], s1[p], if up_grew(s1, p) { s1[p + 1] } else { s1[p - 1] }, s, up_grew(s1, p)) }
+
+/// the shape of `shift_up_result`: only the window changes
+pub proof fn lemma_shift_up_shape(s1: Seq<DiffOp>, p: int, s: usize)
+    requires 1 <= p < s1.len(),
+    ensures s1 == cat3(up_pre(s1, p), up_w1(s1, p), up_post(s1, p)),
+        shift_up_result(s1, p, s) == cat3(up_pre(s1, p), up_w2(s1, p, s), up_post(s1, p)),
+{
+    let pre = up_pre(s1, p); let post = up_post(s1, p); let w1 = up_w1(s1, p); let w2 = up_w2(s1, p, s);
+    let s2 = shift_up_result(s1, p, s);
+    assert(s1 =~= cat3(pre, w1, post));
+    if up_grew(s1, p) {
+        if op_old_len(s1[p - 1]) == s { assert(s2 =~= cat3(pre, w2, post)); } else { assert(s2 =~= cat3(pre, w2, post)); }
+    } else {
+        if op_old_len(s1[p - 1]) == s { assert(s2 =~= cat3(pre, w2, post)); } else { assert(s2 =~= cat3(pre, w2, post)); }
+    }
+}
+
+pub proof fn lemma_arm_shift_up<Old: Index<usize> + ?Sized, New: Index<usize> + ?Sized>(old: &Old, new: &New, s1: Seq<DiffOp>, p: int, s: usize)
+  where New::Output: PartialEq<Old::Output>
+    requires 1 <= p < s1.len(), s1[p - 1] is Equal, s1[p] is Insert, 0 < s <= op_old_len(s1[p - 1]), s <= op_new_len(s1[p]), op_wf(s1[p - 1]), op_wf(s1[p]),
+        p + 1 < s1.len() && s1[p + 1] is Equal ==> op_old_len(s1[p + 1]) + s <= usize::MAX,
+        forall|k: int| 0 <= k < s ==> #[trigger] relk(rel_of(old, new), op_old_end(s1[p - 1]) - s, op_new_end(s1[p]) - s, k),
+    ensures lax_step(old, new, s1, shift_up_result(s1, p, s)), step_ok(old, new, s1, shift_up_result(s1, p, s), true),
+{
+    let e = s1[p - 1]; let i = s1[p];
+    let grew = up_grew(s1, p);
+    let f = if grew { s1[p + 1] } else { e };
+    lemma_shift_up_shape(s1, p, s);
+    lemma_win_shift_up(old, new, e, i, f, s, grew, false);
+    lemma_win_shift_up(old, new, e, i, f, s, grew, true);
+    lemma_arm_window(old, new, s1, shift_up_result(s1, p, s), up_pre(s1, p), up_w1(s1, p), up_w2(s1, p, s), up_post(s1, p));
+}
+
+pub open spec fn down_grew(s1: Seq<DiffOp>, p: int) -> bool { p >= 1 && s1[p - 1] is Equal }
+pub open spec fn down_pre(s1: Seq<DiffOp>, p: int) -> Seq<DiffOp> { if down_grew(s1, p) { s1.subrange(0, p - 1) } else { s1.subrange(0, p) } }
+pub open spec fn down_post(s1: Seq<DiffOp>, p: int) -> Seq<DiffOp> { s1.subrange(p + 2, s1.len() as int) }
+pub open spec fn down_w1(s1: Seq<DiffOp>, p: int) -> Seq<DiffOp> { if down_grew(s1, p) { seq![s1[p - 1], s1[p], s1[p + 1]] } else { seq![s1[p], s1[p + 1]] } }
+pub open spec fn down_w2(s1: Seq<DiffOp>, p: int, s: usize) -> Seq<DiffOp> { down_window(if down_grew(s1, p) { s1[p - 1] } else { s1[p + 1] }, s1[p], s1[p + 1], s, down_grew(s1, p)) }
+
+/// the shape of `shift_down_result`: only the window changes
+pub proof fn lemma_shift_down_shape(s1: Seq<DiffOp>, p: int, s: usize)
+    requires 0 <= p, p + 1 < s1.len(),
+    ensures s1 == cat3(down_pre(s1, p), down_w1(s1, p), down_post(s1, p)),
+        shift_down_result(s1, p, s) == cat3(down_pre(s1, p), down_w2(s1, p, s), down_post(s1, p)),
+{
+    let pre = down_pre(s1, p); let post = down_post(s1, p); let w1 = down_w1(s1, p); let w2 = down_w2(s1, p, s);
+    let s2 = shift_down_result(s1, p, s);
+    assert(s1 =~= cat3(pre, w1, post));
+    if down_grew(s1, p) {
+        if op_old_len(s1[p + 1]) == s { assert(s2 =~= cat3(pre, w2, post)); } else { assert(s2 =~= cat3(pre, w2, post)); }
+    } else {
+        if op_old_len(s1[p + 1]) == s { assert(s2 =~= cat3(pre, w2, post)); } else { assert(s2 =~= cat3(pre, w2, post)); }
+    }
+}
+
+pub proof fn lemma_arm_shift_down<Old: Index<usize> + ?Sized, New: Index<usize> + ?Sized>(old: &Old, new: &New, s1: Seq<DiffOp>, p: int, s: usize)
+  where New::Output: PartialEq<Old::Output>
+    requires 0 <= p, p + 1 < s1.len(), s1[p + 1] is Equal, s1[p] is Insert, 0 < s <= op_old_len(s1[p + 1]), s <= op_new_len(s1[p]), op_wf(s1[p + 1]), op_wf(s1[p]),
+        p >= 1 && s1[p - 1] is Equal ==> op_old_len(s1[p - 1]) + s <= usize::MAX,
+        forall|k: int| 0 <= k < s ==> #[trigger] relk(rel_of(old, new), op_old_index(s1[p + 1]) as int, op_new_index(s1[p]) as int, k),
+    ensures lax_step(old, new, s1, shift_down_result(s1, p, s)), step_ok(old, new, s1, shift_down_result(s1, p, s), true),
+{
+    let f = s1[p + 1]; let i = s1[p];
+    let grew = down_grew(s1, p);
+    let e = if grew { s1[p - 1] } else { f };
+    lemma_shift_down_shape(s1, p, s);
+    lemma_win_shift_down(old, new, e, i, f, s, grew, false);
+    lemma_win_shift_down(old, new, e, i, f, s, grew, true);
+    lemma_arm_window(old, new, s1, shift_down_result(s1, p, s), down_pre(s1, p), down_w1(s1, p), down_w2(s1, p, s), down_post(s1, p));
+}
+
+/// Delete and Insert at p - 1, p change places (`ops.swap`, with or without the recomputation of what they carry)
+pub proof fn lemma_arm_swap<Old: Index<usize> + ?Sized, New: Index<usize> + ?Sized>(old: &Old, new: &New, s1: Seq<DiffOp>, s2: Seq<DiffOp>, p: int, bw: OBox)
+  where New::Output: PartialEq<Old::Output>
+    requires swapped(s1, s2, p), swap_plain(s1, s2, p) || swap_fixed(s2, p), ops_full(old, new, s1, bw, false), carried_ok(s1),
+    ensures lax_step(old, new, s1, s2), swap_fixed(s2, p) ==> step_ok(old, new, s1, s2, true),
+{
+    let a = s1[p - 1]; let c = s1[p]; let c2 = s2[p - 1]; let a2 = s2[p];
+    let pre = s1.subrange(0, p - 1); let post = s1.subrange(p + 1, s1.len() as int);
+    let w1 = seq![a, c]; let w2 = seq![c2, a2];
+    assert(s1 =~= cat3(pre, w1, post));
+    assert(s2 =~= cat3(pre, w2, post));
+    lemma_win_swap(old, new, a, c, c2, a2);
+    lemma_step_window(old, new, pre, w1, w2, post, false);
+    assert(w2[0] == c2 && w2[1] == a2);
+    if swap_fixed(s2, p) {
+        assert(swap_fixed(w2, 1));
+        lemma_step_window(old, new, pre, w1, w2, post, true);
+    }
+    // carried indices
+    let e0 = etot(pre); let et = etot(s1);
+    lemma_cat3_tot(pre, w1, post);
+    lemma_carried2(a, c, e0, et); lemma_carried2(c2, a2, e0, et);
+    if carried_in(w1, e0, et) {
+        if swap_plain(s1, s2, p) {
+            assert(carried_in(w2, e0, et));
+        } else {
+            assert(ops_full(old, new, s2, bw, false));
+            lemma_op_facts(old, new, s2, p - 1, bw, false);
+            lemma_op_facts(old, new, s2, p, bw, false);
+            lemma_cat3_at(pre, w2, post, p - 1);
+            lemma_cat3_tot(pre, w2, post);
+            assert(carried_in(w2, e0, et));
+        }
+    }
+    lemma_carried_window(pre, w1, w2, post);
+}
+
 } // verus!
